@@ -3,7 +3,7 @@
 import json, os
 VERIF = os.path.dirname(os.path.dirname(os.path.abspath(__file__)))
 
-HOOK_COMMITS = ["34fc5d5", "8fe3f16"]
+HOOK_COMMITS = ["34fc5d5", "8fe3f16", "cbf8df0"]
 
 CHECKS = {
  "C01": dict(technique="runtime monitoring: round-trip monitor (identity oracle) over enumerated boundary/catalogue workloads and seeded random inputs at all three API layers",
